@@ -46,7 +46,7 @@ P = {
          "forever self-waking futures, endless sources and push-one/pop-one refill around a victim that is woken once; a woken child must be polled within (G+1)(N+2)+4 collection polls (G groups, N capacity) and one call may make at most 1024(2G+1)(events+2) child polls (no oracle depends on today's budget of 61); an unbounded loop is cut by a hard cap and reported",
          "exploration; bounds are deliberately generous because failures are unbounded"),
  'C14': ("stateful PBT: task-waker invocation ledger + Settle probes",
-         "every invocation of a task waker outside a poll must happen inside a bracketed child-waker (or upstream) invocation made by the environment; Settle freezes every child (pending, silent) and requires a clean Pending within held+2 (+one per stale invocation) polls",
+         "every invocation of a task waker outside a poll must happen inside a bracketed child-waker (or upstream) invocation made by the environment; Settle freezes every child (pending, silent) and requires a clean Pending within held+2 (+stale invocations / measured per-call budget) polls",
          "exploration"),
  'C15': ("stateful PBT: counting model of capacity and observers",
          "capacities 0..300; push accepted iff fewer than n running; refusal returns the very same unpolled, undropped future; panicking push leaves observers unchanged and drops its argument once; len/is_empty/size_hint/is_terminated/capacity compared with the model after every operation",
